@@ -16,6 +16,9 @@ import (
 type fsm struct {
 	peer *peer
 
+	// out or in; set once by the peer manager before the FSM is started
+	direction int
+
 	// the bgp ID received in the latest open message
 	remoteID uint32
 
